@@ -68,6 +68,114 @@ func MixedReprClone() fp.Clone[MixedRepr] {
 				clone.HCons(clone.GoMap(clone.Given[string](), clone.Ptr(lazy.Done(clone.Given[int]()))), clone.HNil))))
 }
 
+// ---- clone.Generic for every fp.GenericKind value
+//
+// Defined types over a slice, a map, a pointer and a struct (what gombok derives for
+// `type MySeq []string` is a Generic of kind NewType whose To/From are conversions), each
+// usable with any Kind label, and Struct-/Tuple-kind Generics that have them as components.
+
+type Names []string
+type Index map[string]*int
+type Cell *int
+type Inner struct {
+	P *int
+	S []int
+}
+type Wrapped Inner
+type Holder struct {
+	N Names
+	I Index
+	C Cell
+	W Wrapped
+}
+
+var genericNamed = map[string]bool{"Names": true, "Index": true, "Cell": true, "Inner": true, "Wrapped": true, "Holder": true, "Mixed": true}
+
+// GenericKinds: the three constants of package fp and the zero value.
+var GenericKinds = []string{fp.GenericKindStruct, fp.GenericKindTuple, fp.GenericKindNewType, ""}
+
+func ptrInt() fp.Clone[*int] { return clone.Ptr(lazy.Done(clone.Given[int]())) }
+
+func CloneNames(kind string) fp.Clone[Names] {
+	return clone.Generic(fp.Generic[Names, []string]{Type: "core.Names", Kind: kind,
+		To: func(v Names) []string { return []string(v) }, From: func(v []string) Names { return Names(v) }},
+		clone.Slice(clone.Given[string]()))
+}
+
+func CloneIndex(kind string) fp.Clone[Index] {
+	return clone.Generic(fp.Generic[Index, map[string]*int]{Type: "core.Index", Kind: kind,
+		To: func(v Index) map[string]*int { return map[string]*int(v) }, From: func(v map[string]*int) Index { return Index(v) }},
+		clone.GoMap(clone.Given[string](), ptrInt()))
+}
+
+func CloneCell(kind string) fp.Clone[Cell] {
+	return clone.Generic(fp.Generic[Cell, *int]{Type: "core.Cell", Kind: kind,
+		To: func(v Cell) *int { return (*int)(v) }, From: func(v *int) Cell { return Cell(v) }},
+		ptrInt())
+}
+
+type innerRepr = hlist.Cons[*int, hlist.Cons[[]int, hlist.Nil]]
+
+func CloneInner() fp.Clone[Inner] {
+	return clone.Generic(fp.Generic[Inner, innerRepr]{Type: "core.Inner", Kind: fp.GenericKindStruct,
+		To:   func(v Inner) innerRepr { return hlist.Concat(v.P, hlist.Concat(v.S, hlist.Empty())) },
+		From: func(h innerRepr) Inner { return Inner{P: hlist.Head(h), S: hlist.Head(hlist.Tail(h))} }},
+		clone.HCons(ptrInt(), clone.HCons(clone.Slice(clone.Given[int]()), clone.HNil)))
+}
+
+func CloneWrapped(kind string) fp.Clone[Wrapped] {
+	return clone.Generic(fp.Generic[Wrapped, Inner]{Type: "core.Wrapped", Kind: kind,
+		To: func(v Wrapped) Inner { return Inner(v) }, From: func(v Inner) Wrapped { return Wrapped(v) }},
+		CloneInner())
+}
+
+type holderRepr = hlist.Cons[Names, hlist.Cons[Index, hlist.Cons[Cell, hlist.Cons[Wrapped, hlist.Nil]]]]
+
+func holderReprClone(kind string) fp.Clone[holderRepr] {
+	return clone.HCons(CloneNames(kind), clone.HCons(CloneIndex(kind), clone.HCons(CloneCell(kind), clone.HCons(CloneWrapped(kind), clone.HNil))))
+}
+
+// CloneHolder: a Struct-kind Generic (hlist representation) whose fields use Generics of the given kind.
+func CloneHolder(kind string) fp.Clone[Holder] {
+	return clone.Generic(fp.Generic[Holder, holderRepr]{Type: "core.Holder", Kind: fp.GenericKindStruct,
+		To: func(v Holder) holderRepr {
+			return hlist.Concat(v.N, hlist.Concat(v.I, hlist.Concat(v.C, hlist.Concat(v.W, hlist.Empty()))))
+		},
+		From: func(h holderRepr) Holder {
+			t1 := hlist.Tail(h)
+			t2 := hlist.Tail(t1)
+			t3 := hlist.Tail(t2)
+			return Holder{N: hlist.Head(h), I: hlist.Head(t1), C: hlist.Head(t2), W: hlist.Head(t3)}
+		}},
+		holderReprClone(kind))
+}
+
+type HolderTuple = fp.Tuple4[Names, Index, Cell, Wrapped]
+
+// CloneHolderTupleRepr: a Struct-kind Generic with a tuple representation (what gombok emits
+// for structs with AsTuple/FromTuple).
+func CloneHolderTupleRepr(kind string) fp.Clone[Holder] {
+	return clone.Generic(fp.Generic[Holder, HolderTuple]{Type: "core.Holder", Kind: fp.GenericKindStruct,
+		To:   func(v Holder) HolderTuple { return HolderTuple{I1: v.N, I2: v.I, I3: v.C, I4: v.W} },
+		From: func(t HolderTuple) Holder { return Holder{N: t.I1, I: t.I2, C: t.I3, W: t.I4} }},
+		clone.Tuple4(CloneNames(kind), CloneIndex(kind), CloneCell(kind), CloneWrapped(kind)))
+}
+
+// CloneTupleKind: a Tuple-kind Generic (a tuple type with an hlist representation).
+func CloneTupleKind(kind string) fp.Clone[HolderTuple] {
+	return clone.Generic(fp.Generic[HolderTuple, holderRepr]{Type: "fp.Tuple4", Kind: fp.GenericKindTuple,
+		To: func(t HolderTuple) holderRepr {
+			return hlist.Concat(t.I1, hlist.Concat(t.I2, hlist.Concat(t.I3, hlist.Concat(t.I4, hlist.Empty()))))
+		},
+		From: func(h holderRepr) HolderTuple {
+			t1 := hlist.Tail(h)
+			t2 := hlist.Tail(t1)
+			t3 := hlist.Tail(t2)
+			return HolderTuple{I1: hlist.Head(h), I2: hlist.Head(t1), I3: hlist.Head(t2), I4: hlist.Head(t3)}
+		}},
+		holderReprClone(kind))
+}
+
 // typed constructors for the library types with unexported fields
 type optionOps struct {
 	elem reflect.Type
@@ -101,6 +209,9 @@ func RegCons2[U any]() {
 
 // combinator names the clone combinator responsible for values of type t.
 func combinator(t reflect.Type) string {
+	if genericNamed[t.Name()] && strings.HasSuffix(t.PkgPath(), "c18/core") {
+		return "Generic"
+	}
 	switch t.Kind() {
 	case reflect.Ptr:
 		return "Ptr"
@@ -204,7 +315,7 @@ func domainOf(t reflect.Type) *domain {
 			add("&"+e.desc, func(p *pool) reflect.Value {
 				v := reflect.New(t.Elem())
 				v.Elem().Set(e.build(p))
-				return v
+				return v.Convert(t)
 			})
 		}
 	case reflect.Slice:
@@ -627,7 +738,7 @@ func regions(v reflect.Value, path, owner string, inKey bool, out *[]region, see
 		sz := v.Type().Elem().Size()
 		key := [2]uintptr{v.Pointer(), sz}
 		if sz > 0 { // zero-size targets hold nothing that could be mutated
-			*out = append(*out, region{"ptr-target", v.Pointer(), sz, path, "Ptr", owner, inKey})
+			*out = append(*out, region{"ptr-target", v.Pointer(), sz, path, combinator(v.Type()), owner, inKey})
 		}
 		if seen[key] {
 			return
@@ -651,7 +762,7 @@ func regions(v reflect.Value, path, owner string, inKey bool, out *[]region, see
 		if v.IsNil() {
 			return
 		}
-		*out = append(*out, region{"map", v.Pointer(), 1, path, "GoMap", owner, inKey})
+		*out = append(*out, region{"map", v.Pointer(), 1, path, combinator(v.Type()), owner, inKey})
 		for _, e := range entries(v) {
 			// storage reachable through a key counts like storage reachable through a value
 			tk := reflect.New(v.Type().Key()).Elem()
@@ -696,7 +807,7 @@ func scramble(v reflect.Value) {
 		v.SetBool(!v.Bool())
 	case reflect.Ptr:
 		if v.IsNil() {
-			v.Set(reflect.New(v.Type().Elem()))
+			v.Set(reflect.New(v.Type().Elem()).Convert(v.Type()))
 			return
 		}
 		scramble(v.Elem())
